@@ -34,3 +34,9 @@ ob("SDgetdimscale", ["C10"], entry="h_SDgetdimscale", unit="mfsd_rw_u.c", file="
    replace=["SDIgetcoordvar"], defines=["MAXR=4"],
    trusted=["NC_check_id", "Hendaccess", "NCvario(stub: logs file, variable, buffer, start / count of dimension 0)",
             "SDIgetcoordvar: ASSUMED contract (index of the dimension's coordinate variable, or FAIL)"])
+
+# Vdata / field attributes: re-setting an existing attribute (vattr.c), harness level over logging V-layer stubs
+ob("VSsetattr_existing", ["C10"], entry="h_VSsetattr_existing", unit="vattr_u.c", file="hdf/src/vattr.c", mode="bounded", unwind=3, cex_unwind=4,
+   bound="ONE existing attribute of the addressed field (or of the Vdata itself), names of one character; parent Vdata with one field",
+   objbits=8, trusted=["HAatom_group/HAatom_object: the parent's and the attribute Vdata's instance",
+                       "VSattach/VSwrite/VSdetach/VHstoredatam: logging stubs, may fail", "strcmp: exact for names of one character"])
